@@ -182,7 +182,7 @@ int main() {
         int timeout = std::atoi(cfg.substr(slash + 1, colon - slash - 1).c_str());
         std::vector<std::string> ops;
         { std::string cur; for (char c : cfg.substr(colon + 1)) { if (c == ',') { ops.push_back(cur); cur.clear(); } else cur += c; } ops.push_back(cur); }
-        if (ops.empty() || maxThreads < 0) { std::puts("bad-op"); std::puts("end ok"); continue; }
+        if (ops.empty() || maxThreads < -1) { std::puts("bad-op"); std::puts("end ok"); continue; }
         std::vector<int> script; uint64_t seed = 1; bool pts = false;
         std::string tok;
         std::vector<std::string> rest; while (is >> tok) rest.push_back(tok);
